@@ -27,6 +27,7 @@ RULE = ('C03\'s template-built example multisets and option space plus '
         'result has >=2 expressions or an expression with a bracket/group; '
         'distinct by case hash.')
 RULE += ' ' + 'Also (shared generator): wide rows of 12-60 multi-class fields; examples that are another example plus a final line break; zero-count dictionary keys; punctuation runs sharing exactly one of two extra letters; use_sampling=False Sizes.'
+RULE += ' ' + 'Round 8: byte-string input form (UTF-8 with an encoding).'
 ASSUMPTIONS = ['"matches" is re.match on the anchored expression']
 
 
